@@ -52,8 +52,8 @@ def cmd_new(prop, name, rel, expect):
         p = os.path.join(d, rel)
         s = open(p).read()
         for h in hunks:
-            old, new = h.split("\n=====\n")
-            new = new.rstrip("\n")
+            old, new = h.split("\n=====", 1)
+            new = new.lstrip("\n").rstrip("\n")
             old = old.rstrip("\n")
             if s.count(old) != 1:
                 print("OLD text occurs %d times in %s" % (s.count(old), rel)); return 1
